@@ -12,6 +12,16 @@ COMMON_NOTE = ("Trusted base: CPython's ast module and the sa/ engine (loader, a
                "property, for all inputs - not the run-time behaviour itself; what is declined is listed in DESIGN.md. ")
 
 CHECKS = {
+    "C01": dict(
+        text="Static flow/path rules: the parallel map's rows are filtered on the truthiness of alignedPairs and every row list "
+             "written in any mode derives only from that filtered result; Aligner.align sends the segments of all peaks "
+             "through the injected AlignmentSegmentConflictResolver(SegmentChainer(SequentialityScorer)); the resolver "
+             "walks {(i,i+1)} over the whole chain and writes both results back to their own slots; per-peak "
+             "de-duplication is one-per-key by query label and by reference label keeping the minimum distance.",
+        note="That the final matching is one-to-one and collinear for every geometry is declined (value-level; the property "
+             "text itself records fuzzing counter-examples); two constructs are reported as observations only.",
+        tech="static analysis: source->sanitiser->sink flow per mode (R-FLOW), path/term rules on the resolver loop (R-PATH/R-TERM), typed constructor chain (R-TABLE)",
+        ref="DESIGN.md section 4 C01"),
     "C02": dict(
         text="Static table/term rules: XMAP header names, record keys and reader columns agree position by position; each column is "
              "written from the attribute the reader stores; column-name/attribute roles agree; XmapEntryID is 1..n; "
@@ -56,6 +66,16 @@ CHECKS = {
              "exception table of named lookups with reasons. General exception freedom is declined.",
         tech="static analysis: idiom table (R-GUARD) judged on enumerated paths with guard facts; call-graph reachability",
         ref="DESIGN.md section 4 C07"),
+    "C08": dict(
+        text="Static mode-specialisation rules: every declared --outputMode choice is handled and returns rows explicitly; after "
+             "constant-propagating the mode, main(all)==main(joined), _1(all)==main(separate), _2(all)==_1(separate) as terms; "
+             "file numbers and the <stem>_<n><ext> name; AlignedRest True exactly for second-pass rows; join eligibility = "
+             "same orientation, same reference, gap <= maxDifference (inclusive) wired to --maxDifference; resolve consumes "
+             "every group member exactly once; the joined row is conflict resolution of the two parts' first segments with "
+             "the earlier part on the left and identity fields of the first part.",
+        note="Byte equality of files across runs and 'union valid => joined == union' are declined.",
+        tech="static analysis: constant propagation of the mode through enumerated paths (R-PATH), term equality of mode outputs (R-TERM), exactly-one-consume (R-PATH)",
+        ref="DESIGN.md section 4 C08"),
     "C18": dict(
         text="Static format agreement between XmapReader.writeAlignments and readAlignments/pair parsers: column tables, "
              "separators, comment/header prefixes, header=False, the '(ref,qry)' Alignment grammar with the reader's strip/split "
